@@ -824,7 +824,7 @@ func rule015(r *core.Run) {
 		}
 		extra := ""
 		for _, g := range core.GuardsOf(metaSet) {
-			s := r.P.SliceOf(g.If.Cond, core.SliceOpts{Depth: -1})
+			s := r.P.SliceOf(g.If.Cond, core.SliceOpts{Depth: -1, Control: true})
 			if s.Has("field:gofakes3.Object.IsDeleteMarker") {
 				continue
 			}
@@ -846,7 +846,7 @@ func rule015(r *core.Run) {
 			"quoted hex of obj.Hash", "the ETag header is not the quoted hex of obj.Hash")
 		okg := true
 		for _, g := range core.GuardsOf(etagSet) {
-			s := r.P.SliceOf(g.If.Cond, core.SliceOpts{Depth: -1})
+			s := r.P.SliceOf(g.If.Cond, core.SliceOpts{Depth: -1, Control: true})
 			if _, isNext := findNext(g.If.Cond); isNext {
 				continue
 			}
